@@ -24,3 +24,5 @@ def run(prog, rep):
     _rcr.run_release(prog, rep)
     _rcr.run(prog, rep)
     _rk2.run_getattr(prog, rep)
+    from ..rules import r_err as _rens
+    _rens.run_no_swallow(prog, rep)
